@@ -465,57 +465,57 @@ impl Avfx {
                     avfx.ags_enabled = read_bool(&mut cursor)?;
                 }
                 AvfxData::NumSchedulers => {
-                    todo!()
+                    // not decoded yet: the block is skipped through its size below
                 }
                 AvfxData::NumTimelines => {
-                    todo!()
+                    // not decoded yet: the block is skipped through its size below
                 }
                 AvfxData::NumEmitters => {
-                    todo!()
+                    // not decoded yet: the block is skipped through its size below
                 }
                 AvfxData::NumParticles => {
-                    todo!()
+                    // not decoded yet: the block is skipped through its size below
                 }
                 AvfxData::NumEffectors => {
-                    todo!()
+                    // not decoded yet: the block is skipped through its size below
                 }
                 AvfxData::NumBinders => {
-                    todo!()
+                    // not decoded yet: the block is skipped through its size below
                 }
                 AvfxData::NumTextures => {
-                    todo!()
+                    // not decoded yet: the block is skipped through its size below
                 }
                 AvfxData::NumModels => {
-                    todo!()
+                    // not decoded yet: the block is skipped through its size below
                 }
                 AvfxData::Scheduler => {
-                    todo!()
+                    // not decoded yet: the block is skipped through its size below
                 }
                 AvfxData::Timeline => {
-                    todo!()
+                    // not decoded yet: the block is skipped through its size below
                 }
                 AvfxData::Emitter => {
-                    todo!()
+                    // not decoded yet: the block is skipped through its size below
                 }
                 AvfxData::Particle => {
-                    todo!()
+                    // not decoded yet: the block is skipped through its size below
                 }
                 AvfxData::Effector => {
-                    todo!()
+                    // not decoded yet: the block is skipped through its size below
                 }
                 AvfxData::Binder => {
-                    todo!()
+                    // not decoded yet: the block is skipped through its size below
                 }
                 AvfxData::Texture => {
-                    todo!()
+                    // not decoded yet: the block is skipped through its size below
                 }
                 AvfxData::Model => {
-                    todo!()
+                    // not decoded yet: the block is skipped through its size below
                 }
             }
             let new_pos = cursor.position();
             let read_bytes = (new_pos - last_pos) - 8;
-            let padding = block.size as u64 - read_bytes;
+            let padding = (block.size as u64).checked_sub(read_bytes)?;
             cursor.seek(SeekFrom::Current(padding as i64)).ok()?;
         }
 
